@@ -55,6 +55,10 @@ fn self_cmd_on(slot: usize) -> Command {
     let exe = std::env::current_exe().expect("current_exe");
     let mut c = Command::new(exe);
     c.env("LD_PRELOAD", shim_path());
+    // (no lazy binding: which libc symbols the worker's image has resolved before a fork depends on
+    // how many runs it has done, and the dynamic linker's resolver would be single-stepped - and
+    // counted - inside an instruction-level window of the child)
+    c.env("LD_BIND_NOW", "1");
     c.env_remove("RUST_BACKTRACE");
     let cpus = allowed_cpus();
     let cpu = if cpus.is_empty() || std::env::var_os("VERIF_NO_PIN").is_some() { None } else { Some(cpus[slot % cpus.len()]) };
